@@ -60,9 +60,10 @@ def mutants(pattern="*"):
             p = subprocess.run([os.path.join(VERIF, "tools", "mutant.sh"), f, prop, os.environ.get("MUTANT_RUNS", "3000")], capture_output=True, text=True)
             rc = [l for l in p.stdout.splitlines() if l.startswith("exit=")]
             sigs = [l.split("signature:")[1].split("(runs")[0].strip() for l in p.stdout.splitlines() if "signature:" in l]
+            sigs += [l.split("not replayed:")[1].split(", runs")[0].strip() for l in p.stdout.splitlines() if "further signature not replayed:" in l]
             caught = rc and rc[-1] == "exit=1"
             import re
-            hits = sum(int(m) for m in re.findall(r"signature: .*?\(runs: (\d+)", p.stdout))
+            hits = sum(int(m) for m in re.findall(r"signature: .*?\(runs: (\d+)", p.stdout)) + sum(int(m) for m in re.findall(r"not replayed: .*?, runs: (\d+)\)", p.stdout))
             rows.append({"mutant": name, "property": prop, "caught": bool(caught), "signatures": sigs[:3], "violating_runs": hits, "runs": int(os.environ.get("MUTANT_RUNS", "3000")), "exit": rc[-1] if rc else "?"})
             print(f"{'CAUGHT' if caught else 'MISSED'}  {name:55s} {prop}  hits={hits:<5d} {sigs[:2]} {rc[-1] if rc else p.stdout[-300:]}")
     path = os.path.join(VERIF, "evidence", "selftest_mutants.json")
